@@ -159,7 +159,29 @@ impl<'tcx> Runner<'tcx> {
                     if *et == tcx.types.u8 {
                         let r = job.opts.get(&format!("len.{}", name)).and_then(|s| parse_range(s)).unwrap_or((0, i128::MAX));
                         let t = if job.opts.contains_key(&format!("taint.arg{}", idx)) { T_SK } else { 0 };
-                        return self.byte_slice_input(st, name, r, t);
+                        let sl = self.byte_slice_input(st, name, r, t);
+                        // `atoms.argN=bits` on a slice of fixed length: every bit of bytes 0..len is a boolean atom
+                        if job.opts.get(&format!("atoms.arg{}", idx)).map(|m| m == "bits").unwrap_or(false) && r.0 == r.1 && r.0 <= 16384 {
+                            if let Val::Slice { base, .. } = &sl {
+                                if let Val::Arr(arr) = st.read(base) {
+                                    let mut n = (*arr).clone();
+                                    for i in 0..(r.0 as u64) {
+                                        let mut terms = Vec::new();
+                                        for k in 0..8 {
+                                            let a = self.ip.fresh_atom(st, 0, 1, None);
+                                            self.ip.atom_names.insert(a, format!("arg{}[{}].{}", idx, i, k));
+                                            terms.push((a, 1i128 << k));
+                                        }
+                                        let mut b = IntV::new(0, 255, ITy::U8);
+                                        b.taint = t;
+                                        b.lin = Some(Rc::new(Lin { m: 0, d: 0, terms }));
+                                        n.over.insert(i, Val::Int(b));
+                                    }
+                                    st.refine_at(base, Val::Arr(Rc::new(n)));
+                                }
+                            }
+                        }
+                        return sl;
                     }
                 }
                 let tn = format!("{:?}", inner);
